@@ -16,6 +16,8 @@ import (
 )
 
 type World struct {
+	osigs map[string]*types.Signature
+	Thorough bool // thorough tier: consistency obligations for the zero-annotation sweeps too
 	lines map[string][]string
 	reachCache map[[2]*ssa.Function]bool
 	repo           string
@@ -1134,4 +1136,19 @@ func (w *World) lineText(file string, line int) string {
 		return ""
 	}
 	return ls[line-1]
+}
+
+// originSig: the generic signature of the function registered under key, if it is generic.
+func (w *World) originSig(key string) *types.Signature {
+	if w.osigs == nil {
+		w.osigs = map[string]*types.Signature{}
+		for fn := range w.allFuncs {
+			if o := fn.Origin(); o != nil && o.Signature != nil {
+				w.osigs[fnKey(fn)] = o.Signature
+			} else if fn.TypeParams().Len() > 0 {
+				w.osigs[fnKey(fn)] = fn.Signature
+			}
+		}
+	}
+	return w.osigs[key]
 }
